@@ -219,6 +219,29 @@ func Gen(o Options) *Program {
 			p.Files[j].Includes = append(p.Files[j].Includes, i)
 		}
 	}
+	if o.SameNames && nf > 2 && simrt.Flip("prog.same-base", 0.2) {
+		// two files with the same base name in different directories (a/common.thrift and
+		// b/common.thrift); legal as long as no file includes both and neither includes the other
+		j := 1 + ch("prog.same-base-a", nf-1)
+		k := 1 + ch("prog.same-base-b", nf-1)
+		ok := j != k && !contains(p.Files[j].Includes, k) && !contains(p.Files[k].Includes, j)
+		for _, f := range p.Files {
+			if contains(f.Includes, j) && contains(f.Includes, k) {
+				ok = false
+			}
+		}
+		if ok {
+			if p.Files[k].Dir == p.Files[j].Dir {
+				for _, d := range dirs {
+					if d != p.Files[j].Dir {
+						p.Files[k].Dir = d
+						break
+					}
+				}
+			}
+			p.Files[k].Base = p.Files[j].Base
+		}
+	}
 	// definitions, created leaf files first so that includers can refer to them
 	p.sameNames = o.SameNames
 	p.recDefaults = o.RecDefaults
